@@ -109,8 +109,11 @@ Definition select_binop (ty : numty) (op : binop) : result binstr :=
     | OpLAnd | OpLOr => Crash 807
     end.
 
-(* mod.rs cast_num; crashes 803/804 = unreachable!() in the int_to matches *)
-Definition cast_num (from to : numty) : result (list uinstr) :=
+(* mod.rs cast_num; crashes 803/804 = unreachable!() in the int_to matches.
+   [bysrc] selects the code variant of the int -> wider int arm:
+     false  the code before the repair of finding C08-1: sextend only when BOTH types are signed
+     true   the repaired code: sextend whenever the SOURCE type is signed *)
+Definition cast_num (bysrc : bool) (from to : numty) : result (list uinstr) :=
   if (bit_width from =? bit_width to) && Bool.eqb (nt_float from) (nt_float to) then Ok []
   else
     match nt_float from, nt_float to with
@@ -142,7 +145,8 @@ Definition cast_num (from to : numty) : result (list uinstr) :=
         Ok (first ++ [if nt_signed from then Ufcvt_from_sint (nt_cl to) else Ufcvt_from_uint (nt_cl to)])
     | false, false =>
         match bit_width from ?= bit_width to with
-        | Lt => if nt_signed from && nt_signed to then Ok [Usextend (nt_cl to)] else Ok [Uuextend (nt_cl to)]
+        | Lt => if (if bysrc then nt_signed from else nt_signed from && nt_signed to)
+                then Ok [Usextend (nt_cl to)] else Ok [Uuextend (nt_cl to)]
         | Eq => Ok []
         | Gt => Ok [Uireduce (nt_cl to)]
         end
@@ -190,7 +194,10 @@ Record fsem := mk_fsem {
   f_demote : Z -> Z;                      (* f64 bits -> f32 bits *)
   f_neg : clty -> Z -> Z;
   f_arith : binstr -> clty -> Z -> Z -> Z;  (* fadd fsub fmul fdiv *)
-  f_cmp : floatcc -> clty -> Z -> Z -> bool
+  f_cmp : floatcc -> clty -> Z -> Z -> bool;
+  (* not a float instruction: which variant of cast_num the model mirrors (see [cast_num]);
+     carried here because this record is what every model function is parameterised by *)
+  v_cast_by_source : bool
 }.
 
 (* a run-time value: Cranelift type and bit pattern; [Trap] = hardware trap
@@ -281,7 +288,7 @@ Definition exec_b (F : fsem) (i : binstr) (x y : value) : result outcome :=
 Definition cast_value (F : fsem) (from to : nty) (a : Z) : result value :=
   do nf <- number_type from;
   do nt <- number_type to;
-  do is <- cast_num nf nt;
+  do is <- cast_num (v_cast_by_source F) nf nt;
   exec_list F is (nt_cl nf, a).
 
 (* functions.rs compile_binary + compile_num_binary.
